@@ -990,3 +990,63 @@ def np_ravel(interp, args, kwargs):
 @method("vec", "ravel")
 def _vec_ravel(interp, self, args, kwargs):
     return ops.vec_copy(interp.ctx, self, kind="ndarray")
+
+
+# ---------------------------------------------------------------------------------------------
+# dense matrices with a ghost row-sum (C13: sqra_normalize on a dense input): A.sum(axis=1), np.diag(v), A + B
+# ---------------------------------------------------------------------------------------------
+def mat_rowsum_fn(ctx, M: Mat):
+    """ghost: i -> sum_j M[i, j] for M's *current* contents (uninterpreted per storage cell and version; algebraic rules only:
+    rowsum(diag(v)) = v, rowsum(A + B) = rowsum(A) + rowsum(B))"""
+    key = (M.buf.id, M.buf.version)
+    reg = ctx.__dict__.setdefault("mat_rowsum_reg", {})
+    if key not in reg:
+        nc = conc(M.cols)
+        if nc is not None and nc <= 16:
+            # concrete width: the row sum is the explicit finite sum (exact; used by the CPython cross-check)
+            fn = M.buf.fn
+            reg[key] = lambda i, fn=fn, nc=nc: z3.simplify(z3.Sum([as_real(to_num(fn(i, j))) for j in range(nc)])) if nc else z3.RealVal(0)
+        else:
+            f = ctx.func(f"mrowsum_b{key[0]}v{key[1]}", z3.IntSort(), z3.RealSort())
+            reg[key] = lambda i, f=f: f(zint(i))
+    return reg[key]
+
+
+@method("mat", "sum")
+def _mat_sum(interp, self: Mat, args, kwargs):
+    ctx = interp.ctx
+    axis = kwargs.get("axis", args[0] if args else None)
+    if axis is None or not isinstance(axis, Num) or conc(axis.z) != 1 or len(kwargs) > (1 if "axis" in kwargs else 0):
+        raise Unsupported("dense sum other than sum(axis=1)")
+    f = mat_rowsum_fn(ctx, self)
+    return Vec(self.rows, lambda i: Num(f(i), False), kind="ndarray", elem="real")
+
+
+@lib("numpy.diag")
+def np_diag(interp, args, kwargs):
+    ctx = interp.ctx
+    if kwargs or len(args) != 1 or not isinstance(args[0], Vec):
+        raise Unsupported("np.diag other than np.diag(<1-D sequence>)")
+    v = args[0]
+    snap = snapshot(v)
+    L = v.length
+    val = lambda i: as_real(to_num(snap(zint(i))))
+    out = Mat(L, L, lambda i, j: Num(z3.If(zint(i) == zint(j), val(i), z3.RealVal(0)), False), elem="real")
+    ctx.__dict__.setdefault("mat_rowsum_reg", {})[(out.buf.id, out.buf.version)] = lambda i: val(i)
+    return out
+
+
+@method("mat", "@op:+")
+def _mat_add(interp, self: Mat, args, kwargs):
+    ctx = interp.ctx
+    o = args[0]
+    if not isinstance(o, Mat):
+        return ops.binop(ctx, "+", self, o)
+    for a, b in ((self.rows, o.rows), (self.cols, o.cols)):
+        if not ctx.branch(zint(a) == zint(b), "dense-add-shape"):
+            raise Unsupported("dense + dense with different shapes (broadcasting is not modelled)")
+    fa, fb = self.buf.fn, o.buf.fn
+    ra, rb = mat_rowsum_fn(ctx, self), mat_rowsum_fn(ctx, o)
+    out = Mat(self.rows, self.cols, lambda i, j: Num(as_real(to_num(fa(i, j))) + as_real(to_num(fb(i, j))), False), elem="real")
+    ctx.__dict__.setdefault("mat_rowsum_reg", {})[(out.buf.id, out.buf.version)] = lambda i: ra(i) + rb(i)
+    return out
